@@ -340,7 +340,7 @@ impl Property for C09 {
         true
     }
     fn cases(&self, cfg: &Cfg) -> u64 {
-        cfg.tier.pick(20_000, 2_000_000)
+        cfg.tier.pick(60_000, 2_000_000)
     }
     fn run_case(&self, cfg: &Cfg, i: u64, acc: &mut Acc) {
         let mut r = Rng::keyed(&[cfg.seed, 9, i]);
